@@ -201,8 +201,9 @@ func fnSRandMember(ctx *cmdContext, args map[string]any) (output respValue, err 
 	var countPtr *int
 	count := int(count64)
 	if countSpecified {
-		if count64 == math.MinInt64 {
-			// the negated count must be representable
+		if count64 == math.MinInt64 || count64 < -math.MaxInt32 {
+			// the negated count must be representable, and that many
+			// (repeated) members must fit in a reply
 			output.data = respErrorString("ERR value is out of range")
 			return
 		}
